@@ -92,6 +92,8 @@ class G:
 
 
 REG = {}
+# catalogue functions that take no array argument (nothing to lay out): covered by the history stream only through their users
+CATALOGUE_NO_ARRAY = {'mahotas.disk', 'mahotas.features.lbp.count_binary1s'}
 
 
 def reg(name, path, genf, call, no_readonly=(), canvas=(), nd_min=1):
@@ -201,11 +203,22 @@ def _registry():
     reg('find', C + 'find', find_gen, lambda f, a: f(a['f'], a['template']))
 
     def wav_gen(g):
-        return dict(f=g.fl((2 * g.r.randint(2, 4), 2 * g.r.randint(2, 4))))
+        # every 2-D size is in the documented domain (odd axis lengths included: the last coefficient of an odd row is 0)
+        if g.r.random() < 0.5:
+            return dict(f=g.fl((2 * g.r.randint(2, 4), 2 * g.r.randint(2, 4))))
+        return dict(f=g.fl((g.r.randint(2, 9), g.r.randint(2, 9))))
     reg('haar', C + 'haar', wav_gen, lambda f, a: f(a['f']))
     reg('ihaar', C + 'ihaar', wav_gen, lambda f, a: f(a['f']))
     reg('daubechies', C + 'daubechies', wav_gen, lambda f, a: f(a['f'], 'D4'))
     reg('idaubechies', C + 'idaubechies', wav_gen, lambda f, a: f(a['f'], 'D4'))
+    # round 4: `inline=True` — the caller's own (possibly non-contiguous) array is transformed in place and returned; the
+    # VALUE must still be a function of the logical content (rows are walked with `stride(1)`, columns through `f.T`)
+    reg('haar_inline', C + 'haar', wav_gen, lambda f, a: np.array(f(a['f'], inline=True)), no_readonly=['f'], canvas=['f'])
+    reg('ihaar_inline', C + 'ihaar', wav_gen, lambda f, a: np.array(f(a['f'], inline=True)), no_readonly=['f'], canvas=['f'])
+    reg('daubechies_inline', C + 'daubechies', wav_gen, lambda f, a: np.array(f(a['f'], 'D4', inline=True)),
+        no_readonly=['f'], canvas=['f'])
+    reg('idaubechies_inline', C + 'idaubechies', wav_gen, lambda f, a: np.array(f(a['f'], 'D6', inline=True)),
+        no_readonly=['f'], canvas=['f'])
     reg('wavelet_center', C + 'wavelet_center', lambda g: dict(f=g.fl(g.shape(2, 3))), lambda f, a: f(a['f']))
     reg('wavelet_decenter', C + 'wavelet_decenter', lambda g: dict(w=g.fl((8, 8))), lambda f, a: f(a['w'], (5, 6)))
 
@@ -623,8 +636,8 @@ def _eval_sweep(cases):
                 seen.add(f['key'])
                 keep.append(f)
         out.append(dict(findings=keep, nontrivial=nontrivial, sig=json.dumps(case, sort_keys=True),
-                        tags=dict(stream='sweep', layout=layout, fn=fn, outcome=got[0] if got[0] == 'ok' else 'exc:' + got[1],
-                                  module=e['path'].rsplit('.', 1)[0])))
+                        tags={'stream': 'sweep', 'layout': layout, 'fn': fn, 'outcome': got[0] if got[0] == 'ok' else 'exc:' + got[1],
+                              'module': e['path'].rsplit('.', 1)[0], 'sweep:' + e['path']: 'C' if layout == 'C' else 'non-C'}))
     return out
 
 
@@ -722,7 +735,9 @@ def _eval_view(cases):
 # arbitrarily strided views as the accessor stream
 
 KVIEW_KERNELS = ['erode', 'erode_bool', 'dilate', 'dilate_bool', 'locmax', 'locmin', 'convolve', 'rank', 'mean', 'tm',
-                 'borders', 'hitmiss', 'bbox', 'com', 'cwatershed', 'line']
+                 'borders', 'hitmiss', 'bbox', 'com', 'cwatershed', 'line',
+                 'regmax', 'regmin', 'close_holes', 'majority', 'cooccurence']      # round 4: `kind=kviewA` (Model/C08ViewsA.lean)
+KVIEW_A = ('regmax', 'regmin', 'close_holes', 'majority', 'cooccurence')
 MODES = ['nearest', 'wrap', 'reflect', 'mirror', 'constant', 'ignore']
 
 
@@ -743,8 +758,10 @@ def _kview_setup(c):
         # a 2-D C-array: half of these cases exercise the binary fast path of py_erode / py_dilate (Round 3: the
         # driver dispatches like the C++ and runs `fastBinaryView`, the model with unwritten cells)
         kernel = r.choice(['erode_bool', 'dilate_bool'])
-    isbool = kernel in ('erode_bool', 'dilate_bool', 'hitmiss')
-    hi = 1 if isbool else (3 if kernel in ('borders', 'cwatershed') else 9)
+    if kernel in ('close_holes', 'majority') and nd != 2:      # the wrappers admit matrices only
+        kernel = r.choice(['regmax', 'regmin'])
+    isbool = kernel in ('erode_bool', 'dilate_bool', 'hitmiss', 'close_holes', 'majority')
+    hi = 1 if isbool else (3 if kernel in ('borders', 'cwatershed', 'cooccurence') else 9)
     mem = [r.randint(0, hi) for _ in range(c['buf'])]
     bshape = [r.choice([1, 2, 3, 3]) for _ in range(nd)]
     nb = int(np.prod(bshape))
@@ -758,19 +775,24 @@ def _kview_setup(c):
         b = [r.choice([0, 1, 1]) for _ in range(nb)]
     if kernel in ('locmax', 'locmin'):
         pass    # the wrapper removes the centre itself; the model receives the centre-less element (below)
+    if kernel in ('regmax', 'regmin'):
+        mem = [r.randint(0, 2) for _ in range(c['buf'])]       # few levels: plateaus, ties between plateaus
+    if kernel == 'cooccurence':                                 # the wrapper's one-hot direction array (any position here)
+        b = [0] * nb
+        b[r.randrange(nb)] = 1
     mode = r.randrange(6)
     if kernel == 'rank' and mode == 5:
         mode = 2
     blayout = r.choice(['C', 'F', 'negstride', 'strided'])
     return dict(kernel=kernel, mem=mem, bshape=bshape, b=b, mode=mode, blayout=blayout, isbool=isbool,
-                rank=r.randrange(max(1, sum(1 for x in b if x))), axis=r.randrange(nd),
+                rank=r.randrange(max(1, sum(1 for x in b if x))), axis=r.randrange(nd), n=r.choice([3, 3, 5]),
                 p=[r.randrange(d) for d in shape], markers=[r.choice([0, 0, 0, 1, 2]) for _ in range(int(np.prod(shape)))])
 
 
 def _kview_line(c, k):
     shape = c['shape']
     b = list(k['b'])
-    if k['kernel'] in ('locmax', 'locmin'):
+    if k['kernel'] in ('locmax', 'locmin', 'regmax', 'regmin'):
         ctr = 0
         for d, cs in zip(k['bshape'], _cstr(k['bshape'])):
             ctr += (d // 2) * cs
@@ -778,7 +800,8 @@ def _kview_line(c, k):
     kern = {'erode_bool': 'erode', 'dilate_bool': 'dilate'}.get(k['kernel'], k['kernel'])
     dt = 'b1' if k['isbool'] and kern in ('erode', 'dilate') else ('u8' if kern in ('erode', 'dilate') else 'i64')
     carr = 1 if list(c['strides']) == _cstr(shape) else 0
-    line = (f"c08 kind=kview kernel={kern} dt={dt} mode={k['mode']} rank={k['rank']} axis={k['axis']} p={gen.enc_arr(k['p'])} "
+    kind = 'kviewA' if kern in KVIEW_A else 'kview'
+    line = (f"c08 kind={kind} kernel={kern} n={k.get('n', 3)} mm=4 dt={dt} mode={k['mode']} rank={k['rank']} axis={k['axis']} p={gen.enc_arr(k['p'])} "
             f"amem={gen.enc_arr(k['mem'])} abase={c['base']} ashape={gen.enc_shape(shape)} astrides={gen.enc_arr(list(c['strides']))} "
             f"acarray={carr} bmem={gen.enc_arr(b)} bbase=0 bshape={gen.enc_shape(k['bshape'])} "
             f"bstrides={gen.enc_arr(_cstr(k['bshape']))} bcarray=1")
@@ -844,6 +867,19 @@ def _kview_real(c, k):
         mk = np.array(k['markers'], np.int64).reshape(c['shape'])
         r, lines = mahotas.cwatershed(v, mk, Bc=b.astype(bool) if b.any() else None, return_lines=True)
         return dict(out=flat(r), lines=flat(lines), skip=not b.any())
+    if kern in ('regmax', 'regmin'):
+        return dict(out=flat((mahotas.regmax if kern == 'regmax' else mahotas.regmin)(v, b)))
+    if kern == 'close_holes':
+        return dict(out=flat(mahotas.close_holes(v, b)))
+    if kern == 'majority':
+        return dict(out=flat(mahotas.majority_filter(v, k['n'])))
+    if kern == 'cooccurence':
+        # the native entry point itself (the wrapper builds only centred 3^nd one-hot arrays): values in [0, 4), a zeroed
+        # 4 x 4 int32 result, the direction array in any layout
+        from mahotas.features import _texture
+        res = np.zeros((4, 4), np.int32)
+        _texture.cooccurence(v, res, b, 0)
+        return dict(out=flat(res))
     if kern == 'line':
         ln = np.moveaxis(np.asarray(v), k['axis'], -1)[tuple(x for i, x in enumerate(k['p']) if i != k['axis'])]
         return dict(out=flat(ln))
@@ -899,6 +935,81 @@ def _eval_kview(cases):
                 if kern == 'cwatershed' and 'lines' in drv and core.ints(drv['lines']) != real['lines']:
                     f.append(dict(kind='model', key='kview:cwatershed:lines-model-vs-compiled', detail=dict(model=drv['lines'], real=real['lines'])))
         res.append(dict(findings=f, kernel=kern, fast=_kview_fast(c, k)))
+    return res
+
+
+# ------------------------------------------------------------------------------------------------------------------
+# round 4: in-place wavelet kernels on injective strided 2-D views (`kind=kviewB`, Model/C08ViewsB.lean): the compiled
+# `haar/ihaar/daubechies/idaubechies(view, inline=True)` against the driver, the WHOLE root buffer compared (elements of the
+# view = the C17 transform of the logical content; everything else untouched)
+
+WAVELETS = ['haar', 'ihaar', 'daubechies', 'idaubechies']
+
+
+def _rand_wview(rng):
+    """an injective 2-D view: permuted / sign-flipped / gapped dense layout (what slicing, transposition, [::-1] produce)"""
+    shape = [rng.choice([1, 2, 3, 4, 4, 5, 6, 7, 8]) for _ in range(2)]
+    order = [0, 1]
+    rng.shuffle(order)
+    strides, acc = [0, 0], 1
+    for ax in order:
+        gap = rng.choice([1, 1, 2, 3])
+        strides[ax] = acc * gap * rng.choice([1, 1, -1])
+        acc *= shape[ax] * gap
+    lo = sum(min(0, s * (d - 1)) for s, d in zip(strides, shape))
+    hi = sum(max(0, s * (d - 1)) for s, d in zip(strides, shape))
+    base = -lo + rng.choice([0, 0, 1, 3])
+    return dict(stream='kviewB', shape=shape, strides=strides, base=base, buf=base + hi + 1 + rng.choice([0, 2]),
+                kernel=rng.choice(WAVELETS), code=rng.randrange(10), seed=rng.randrange(1 << 30))
+
+
+def _eval_kviewB(cases):
+    import mahotas
+    lines, bufs = [], []
+    for c in cases:
+        r = np.random.RandomState(c['seed'])
+        buf = r.randint(-8, 9, size=c['buf']).astype(np.float64)      # small integers: haar/ihaar are exact in binary64
+        if c['kernel'] == 'ihaar':
+            buf *= 4.0
+        bufs.append(buf)
+        lines.append(f"c08 kind=kviewB kernel={c['kernel']} code={c['code']} mem={core.fmt_floats(buf)} base={c['base']} "
+                     f"shape={gen.enc_shape(c['shape'])} strides={gen.enc_arr(list(c['strides']))}")
+    drvs = core.drive(lines)
+    res = []
+    for c, buf0, drv in zip(cases, bufs, drvs):
+        f = []
+        kern = c['kernel']
+        buf = buf0.copy()
+        v = np.lib.stride_tricks.as_strided(buf[c['base']:], shape=tuple(c['shape']), strides=tuple(8 * s for s in c['strides']),
+                                            writeable=True)
+        try:
+            if kern in ('haar', 'ihaar'):
+                ret = getattr(mahotas, kern)(v, preserve_energy=False, inline=True)
+            else:
+                ret = getattr(mahotas, kern)(v, 'D%d' % (2 * c['code'] + 2), inline=True)
+        except Exception as e:
+            res.append(dict(findings=[dict(kind='model', key=f'kviewB:{kern}:real-raised', detail=dict(err=repr(e)[:200]))], kernel=kern))
+            continue
+        if 'error' in drv or 'mem' not in drv:
+            f.append(dict(kind='model', key=f'kviewB:{kern}:driver-error', detail=dict(drv=drv)))
+        else:
+            model = core.floats(drv['mem'])
+            inview = np.zeros(buf.size, bool)
+            iv = np.lib.stride_tricks.as_strided(inview[c['base']:], shape=tuple(c['shape']), strides=tuple(s for s in c['strides']),
+                                                 writeable=True)
+            iv[...] = True
+            if not np.array_equal(buf[~inview], buf0[~inview]):
+                # the property itself: an in-place call may change the array it was given, nothing else
+                f.append(dict(kind='property', key=f'{kern}_inline:padding-modified', detail=dict(case=c)))
+            tol = 0.0 if kern in ('haar', 'ihaar') else 1e-9 * max(1.0, float(np.abs(buf0).max()))
+            if model.shape != buf.shape or not np.all(np.abs(model - buf) <= tol):
+                bad = int(np.argmax(np.abs(model - buf) > tol)) if model.shape == buf.shape else -1
+                f.append(dict(kind='model', key=f'kviewB:{kern}:model-vs-compiled',
+                              detail=dict(at=bad, model=float(model[bad]) if bad >= 0 else None, real=float(buf[bad]) if bad >= 0 else None)))
+            if ret is not v and not np.shares_memory(ret, buf):
+                f.append(dict(kind='model', key=f'kviewB:{kern}:inline-returned-copy', detail={}))
+        res.append(dict(findings=f, kernel=kern, nontrivial=True, sig=json.dumps(c, sort_keys=True),
+                        tags=dict(stream='kviewB', kernel=kern, fn=kern, contiguous=bool(v.flags.c_contiguous))))
     return res
 
 
@@ -970,8 +1081,30 @@ def _eval_cover(case):
     findings = []
     if missing:
         findings.append(dict(kind='model', key='registry:unregistered-public-function', detail=dict(missing=missing)))
+    # round 4: the call-sequence (history) stream and the catalogue of the degenerate/ASan sweeps (harness/catalog.py):
+    # every public function the sweeps know must be the `then` of some history pair in THIS run's plan, and must have a
+    # registry entry (the plan is computed by `_history_plan`, the same function `cases` uses)
+    paths = sorted({e['path'] for e in reg_.values()})
+    planned = set(case.get('history_paths') or [])
+    if case.get('history_paths') is not None:
+        for pth in paths:
+            if pth not in planned:
+                findings.append(dict(kind='model', key=f'coverage:{pth}:not-in-history-stream', detail={}))
+    ncat = 0
+    try:
+        from harness import catalog
+        from harness.props.c12 import _resolve_public
+        regcodes = {getattr(_resolve(e['path']), '__code__', None) for e in reg_.values()}
+        for n in sorted(catalog.ENTRIES):
+            o = _resolve_public(n)
+            ncat += 1
+            if o is None or (o.__code__ not in regcodes and n not in CATALOGUE_NO_ARRAY):
+                findings.append(dict(kind='model', key=f'coverage:{n}:catalogue-function-not-in-registry', detail={}))
+    except ImportError:
+        pass
     return dict(findings=findings, nontrivial=True, sig='cover', n=len(api), nontrivial_n=0,
-                tags=dict(stream='cover', public=len(api), registered=len(covered)))
+                tags=dict(stream='cover', public=len(api), registered=len(covered), catalogue=ncat,
+                          history_functions=len(planned)))
 
 
 def _fresh_run(cases, pattern=0x33):
@@ -1008,7 +1141,8 @@ def _eval_history(case):
         f.append(dict(kind='property', key=f'{fn}:history-dependent', detail=dict(first=case['first']['fn'], then=fn,
                                                                                    after_first=ra[:3], alone=rb[:3])))
     return dict(findings=f, nontrivial=True, sig=json.dumps(case, sort_keys=True),
-                tags=dict(stream='history', fn=fn, first=case['first']['fn']))
+                tags={'stream': 'history', 'fn': fn, 'first': case['first']['fn'],
+                      'history:' + _registry()[fn]['path']: 'same-fn' if _registry()[case['first']['fn']]['path'] == _registry()[fn]['path'] else 'other-fn'})
 
 
 def evaluate(cases):
@@ -1021,6 +1155,9 @@ def evaluate(cases):
         out[i] = r
     norms = [(i, c) for i, c in enumerate(cases) if c.get('stream') == 'norm']
     for (i, _), r in zip(norms, _eval_norm([c for _, c in norms]) if norms else []):
+        out[i] = r
+    kvb = [(i, c) for i, c in enumerate(cases) if c.get('stream') == 'kviewB']
+    for (i, _), r in zip(kvb, _eval_kviewB([c for _, c in kvb]) if kvb else []):
         out[i] = r
     for i, c in enumerate(cases):
         if c.get('stream') == 'cover':
@@ -1064,32 +1201,57 @@ def _rand_view(rng):
     return dict(stream='view', shape=shape, strides=strides, base=base, buf=base + hi + 1 + rng.choice([0, 2]))
 
 
+def _history_plan(rng, tier, reg_):
+    """(first, then) pairs of registry entries. Round 3: every ordered pair of entries that share a public function.
+    Round 4: EVERY public function is the `then` of a pair after the same function on other inputs and (quick tier: every second
+    function, rotating with the seed; thorough: all, four times) of a pair after a function of another family (memoised structuring elements, lazily built
+    tables, scratch buffers and caches keyed on shapes are shared across functions of a module)"""
+    by_path = {}
+    for name in sorted(reg_):
+        by_path.setdefault(reg_[name]['path'], []).append(name)
+    paths = sorted(by_path)
+    plan = []
+    for path, names in sorted(by_path.items()):
+        if len(names) >= 2:
+            for a in names:
+                for b in names:
+                    if a != b:
+                        plan += [(a, b)] * dict(quick=1, thorough=4, search=1)[tier]
+    half = rng.randrange(2)        # quick tier: the other-family predecessor for every second function (rotating with the seed)
+    for pi, path in enumerate(paths):
+        names = by_path[path]
+        for k in range(dict(quick=1, thorough=4, search=1)[tier]):
+            b = names[k % len(names)]
+            plan.append((b, b))
+            other = paths[(pi + 1 + rng.randrange(len(paths) - 1)) % len(paths)]
+            g = rng.choice(by_path[other])
+            if tier != 'quick' or pi % 2 == half:
+                plan.append((g, b))
+    return plan
+
+
 def cases(rng, tier):
     reg_ = _registry()
     out = list(_corpus()) if tier != 'search' else []
-    out.append(dict(stream='cover'))
+    cover_case = dict(stream='cover')
+    out.append(cover_case)
     nview = dict(quick=600, thorough=20000, search=3000)[tier]
     for _ in range(nview):
         out.append(_rand_view(rng))
+    for _ in range(dict(quick=240, thorough=6000, search=1200)[tier]):
+        out.append(_rand_wview(rng))
     for norm in sorted(NORMS):
         for layout in gen.LAYOUTS + ['unaligned']:
             for nd in (1, 2, 3):
                 for _ in range(dict(quick=1, thorough=5, search=2)[tier]):
                     out.append(dict(stream='norm', norm=norm, layout=layout, nd=nd, seed=rng.randrange(1 << 30)))
-    # call sequences within one public function: every ordered pair of registry entries that share the function
-    by_path = {}
-    for name in sorted(reg_):
-        by_path.setdefault(reg_[name]['path'], []).append(name)
-    for path, names in sorted(by_path.items()):
-        if len(names) < 2:
-            continue
-        for a in names:
-            for b in names:
-                if a != b:
-                    for _ in range(dict(quick=1, thorough=4, search=1)[tier]):
-                        out.append(dict(stream='history',
-                                        first=dict(stream='sweep', fn=a, seed=rng.randrange(1 << 30), size=5, pos=None, layout='C'),
-                                        then=dict(stream='sweep', fn=b, seed=rng.randrange(1 << 30), size=5, pos=None, layout='C')))
+    # call sequences (history): see `_history_plan`
+    plan = _history_plan(rng, tier, reg_)
+    cover_case['history_paths'] = sorted({reg_[b]['path'] for _, b in plan})
+    for a, b in plan:
+        out.append(dict(stream='history',
+                        first=dict(stream='sweep', fn=a, seed=rng.randrange(1 << 30), size=5, pos=None, layout='C'),
+                        then=dict(stream='sweep', fn=b, seed=rng.randrange(1 << 30), size=5, pos=None, layout='C')))
     ninputs = dict(quick=3, thorough=40, search=6)[tier]
     for name in sorted(reg_):
         e = reg_[name]
